@@ -551,8 +551,36 @@ func manualFieldPath(t types.Type, name string, depth int) ([]int, types.Type, b
 	return nil, nil, false
 }
 
+// structValue evaluates e as a struct VALUE (datatype term) if it denotes one.
+func (ec *EvalCtx) structValue(e Expr) (Val, bool) {
+	switch x := e.(type) {
+	case *EIdent:
+		if v, found := ec.lookupName(x.Name); found && v.G != nil {
+			if _, isS := v.G.Underlying().(*types.Struct); isS {
+				return v, true
+			}
+		}
+	case *ESel:
+		if b, ok := ec.structValue(x.X); ok {
+			st := b.G.Underlying().(*types.Struct)
+			if _, _, has := manualFieldPath(b.G, x.Name, 0); has {
+				v := ec.selStructVal(b, st, x.Name)
+				if v.G != nil {
+					if _, isS := v.G.Underlying().(*types.Struct); isS {
+						return v, true
+					}
+				}
+			}
+		}
+	}
+	return Val{}, false
+}
+
 func (ec *EvalCtx) evalSel(x *ESel) Val {
 	ex := ec.ex
+	if b, ok := ec.structValue(x.X); ok {
+		return ec.selStructVal(b, b.G.Underlying().(*types.Struct), x.Name)
+	}
 	// struct VALUE selection (datatype accessor)
 	if id, ok := x.X.(*EIdent); ok {
 		if v, found := ec.lookupName(id.Name); found && v.G != nil {
@@ -742,6 +770,11 @@ func (ec *EvalCtx) evalCall(x *ECall) Val {
 	case "fresh": // allocated during this call
 		v := ec.coerce(ec.eval(x.Args[0]), SInt)
 		return Val{T: fmt.Sprintf("(> (root %s) allocbase)", v.T), S: SBool}
+	case "objid":
+		return ec.objid(ec.eval(x.Args[0]))
+	case "ea_arr":
+		v := ec.coerce(ec.eval(x.Args[0]), SInt)
+		return Val{T: fmt.Sprintf("(ea_arr %s)", v.T), S: SInt}
 	case "root":
 		v := ec.coerce(ec.eval(x.Args[0]), SInt)
 		return Val{T: fmt.Sprintf("(root %s)", v.T), S: SInt}
@@ -807,12 +840,20 @@ func (ec *EvalCtx) evalCall(x *ECall) Val {
 		}
 		ec.fail("mapvals of non-map")
 	case "copyOf": // every object-indexed model field has equal rows for a and b (b's row taken in the old state if given as old(b))
-		a := ec.coerce(ec.eval(x.Args[0]), SInt)
-		b := ec.coerce(ec.eval(x.Args[1]), SInt)
+		a := ec.objid(ec.eval(x.Args[0]))
+		var b Val
+		if ec.copyFromOld {
+			sv := ec.mem
+			ec.mem = ec.old
+			b = ec.objid(ec.eval(x.Args[1]))
+			ec.mem = sv
+		} else {
+			b = ec.objid(ec.eval(x.Args[1]))
+		}
 		var parts []string
 		for _, mn := range sortedKeys(ex.S.Models) {
 			md := ex.S.Models[mn]
-			if len(md.Params) == 0 || md.Params[0].S != SInt || md.Params[0].Name != "o" {
+			if len(md.Params) == 0 || !md.Params[0].Obj {
 				continue
 			}
 			if len(x.Args) > 2 && ec.exceptListed(x.Args[2:], mn) {
@@ -901,15 +942,17 @@ func (ec *EvalCtx) evalCall(x *ECall) Val {
 	}
 	// model field
 	if an, md := ex.modelArray(x.Fn); md != nil {
-		if len(x.Args) != len(md.Params) {
-			ec.fail("model field %s expects %d arguments", x.Fn, len(md.Params))
+		if len(x.Args) > len(md.Params) {
+			ec.fail("model field %s expects at most %d arguments", x.Fn, len(md.Params))
 		}
 		t := ex.memGet(ec.mem, an)
+		so := md.arraySort()
 		for i, a := range x.Args {
-			v := ec.coerce(ec.eval(a), md.Params[i].S)
+			v := ec.argFor(ec.eval(a), md.Params[i])
 			t = fmt.Sprintf("(select %s %s)", t, v.T)
+			_, so, _ = arraySorts(so)
 		}
-		return Val{T: t, S: md.Ret}
+		return Val{T: t, S: so}
 	}
 	if uf := ex.S.UFuns[x.Fn]; uf != nil {
 		if len(x.Args) != len(uf.Params) {
@@ -918,7 +961,7 @@ func (ec *EvalCtx) evalCall(x *ECall) Val {
 		ex.declUFun(uf)
 		var as []string
 		for i, a := range x.Args {
-			as = append(as, ec.coerce(ec.eval(a), uf.Params[i].S).T)
+			as = append(as, ec.argFor(ec.eval(a), uf.Params[i]).T)
 		}
 		if len(as) == 0 {
 			return Val{T: "uf_" + uf.Name, S: uf.Ret}
@@ -932,7 +975,9 @@ func (ec *EvalCtx) evalCall(x *ECall) Val {
 		scope := map[string]Val{}
 		for i, a := range x.Args {
 			v := ec.eval(a)
-			if v.S != df.Params[i].S {
+			if df.Params[i].Obj {
+				v = ec.objid(v)
+			} else if v.S != df.Params[i].S {
 				v = ec.coerce(v, df.Params[i].S)
 			}
 			scope[df.Params[i].Name] = v
@@ -1078,4 +1123,77 @@ func (ec *EvalCtx) memFrame(a, b *MemState) string {
 		parts = append(parts, fmt.Sprintf("(forall ((a Int)) (! (=> (<= (root a) allocbase) (= (select %s a) (select %s a))) :pattern ((select %s a))))", x, y, y))
 	}
 	return and(parts...)
+}
+
+// argFor converts an argument to a parameter: object parameters take the object's identity.
+func (ec *EvalCtx) argFor(v Val, p Param) Val {
+	if p.Obj {
+		return ec.objid(v)
+	}
+	return ec.coerce(v, p.S)
+}
+
+// objid: identity of a Kubernetes object. For *unstructured.Unstructured it is the content map (metadata lives in
+// the map and by-value copies of the struct share it); for every other object it is the pointer.
+func (ec *EvalCtx) objid(v Val) Val {
+	ex := ec.ex
+	ut := ex.unstructuredType()
+	if v.S == "Nil" {
+		return Val{T: "0", S: SInt}
+	}
+	if ut == nil {
+		return ec.coerce(v, SInt)
+	}
+	ex.needUmap()
+	mapAt := func(ptr string) string { return fmt.Sprintf("(umap %s)", ptr) }
+	switch {
+	case v.S == SInt && v.G != nil:
+		if pt, ok := v.G.Underlying().(*types.Pointer); ok && types.Identical(pt.Elem(), ut) {
+			return Val{T: mapAt(v.T), S: SInt}
+		}
+		return Val{T: v.T, S: SInt}
+	case v.S == SInt:
+		return v
+	case v.S == SIface:
+		tag := ex.D.tagOf(types.NewPointer(ut))
+		return Val{T: fmt.Sprintf("(ite (= (itag %s) %d) %s (ival %s))", v.T, tag, mapAt(fmt.Sprintf("(ival %s)", v.T)), v.T), S: SInt}
+	case v.G != nil && types.Identical(v.G, ut):
+		si := ex.D.structOf(ut)
+		return Val{T: fmt.Sprintf("(%s_f0 %s)", si.id, v.T), S: SInt}
+	}
+	return ec.coerce(v, SInt)
+}
+
+func (ex *Exec) unstructuredType() types.Type {
+	p := ex.P.Pkgs["k8s.io/apimachinery/pkg/apis/meta/v1/unstructured"]
+	if p == nil {
+		return nil
+	}
+	o := p.Pkg.Scope().Lookup("Unstructured")
+	if o == nil {
+		return nil
+	}
+	return o.Type()
+}
+
+// needUmap declares umap: the content map an unstructured object has (or will get from its first setter).
+// Invariant (stated for every base version of M_Ref and kept by stores): u.Object is nil or umap(u).
+func (ex *Exec) needUmap() {
+	if ex.declaredFun["umap"] {
+		return
+	}
+	ex.declaredFun["umap"] = true
+	ex.D.add("(declare-fun umap (Int) Int)")
+	// objects that exist when the function starts already own their content map (assumption, listed in the evidence)
+	ex.D.add("(assert (forall ((p Int)) (! (=> (<= (root p) allocbase) (<= (root (umap p)) allocbase)) :pattern ((umap p)))))")
+}
+
+func (ex *Exec) umapAxiom(arr string) {
+	ut := ex.unstructuredType()
+	if ut == nil {
+		return
+	}
+	ex.needUmap()
+	fa := ex.D.fieldAddr(ut, 0, "p")
+	ex.emit("(assert (forall ((p Int)) (! (or (= (select %s %s) 0) (= (select %s %s) (umap p))) :pattern ((select %s %s)))))", arr, fa, arr, fa, arr, fa)
 }
